@@ -187,6 +187,8 @@ def snap_pattern(p, prefix):
         out.append((prefix + a, getattr(p, a)))
     out.append((prefix + "fg_color", tuple(p.fg_color)))
     out.append((prefix + "bg_color", tuple(p.bg_color)))
+    # cells read field by field from the note objects (independent of the raw_data getter, which is also what the writer uses)
+    out.append((prefix + "cells", [[(int(n.note), n.vel, n.module, n.ctl, n.val) for n in line] for line in p.data]))
     out.append((prefix + "raw_data", p.raw_data))
     return out
 
